@@ -219,6 +219,8 @@ def names_of(*objs: Any) -> List[str]:
 def _val(m: Any, d: Any) -> str:
     v = m[d]
     try:
+        if z3.is_int_value(v):
+            return str(v.as_long())
         return str(Fraction(v.numerator_as_long(), v.denominator_as_long()))
     except Exception:  # noqa: BLE001
         return str(v)
@@ -327,6 +329,11 @@ def lp_opt(tl: TList, objective: Dict[str, float], maximize: bool) -> Tuple[str,
     if "oo" in s:
         return "unbounded", None
     try:
-        return "opt", Fraction(val.numerator_as_long(), val.denominator_as_long())
+        if z3.is_int_value(val):
+            return "opt", Fraction(val.as_long())
+        if z3.is_rational_value(val):
+            return "opt", Fraction(val.numerator_as_long(), val.denominator_as_long())
+        return "opt", Fraction(s)
     except Exception:  # noqa: BLE001  (epsilon terms etc.)
+        STATS["unknown"] += 1
         return "unknown", None
